@@ -103,6 +103,8 @@ def run(rep):
     rep.rule("R05.E", "kernel error codes are tested at the Python call site and raise")
     rep.rule("R05.MF", "malloc results are null-checked, freed exactly once on every path, not used after free")
     rep.assume("arrays and allocated blocks have fewer than 2^31 elements")
+    rep.assume("a literal multiple c*x (|c| <= 16) of a value bounded by an array extent does not overflow int, like the sums x+x the "
+               "overflow rule does not question: arrays are taken to hold fewer than 2^27 elements there")
     rep.assume("numpy hands C-contiguous buffers of the declared dtype to the typed Cython signatures (checked by S2)")
     rep.assume("Grid dimensions nrows/ncols are non-negative (np.zeros((nrows, ncols)) in Grid.__init__ rejects negatives)")
     rep.assume("libc qsort/malloc/free/math functions are memory safe for correct arguments")
